@@ -125,8 +125,10 @@ def run(ctx):
             if abs(lat) > np.pi / 2 - np.radians(1.0):
                 continue
             ctx.count()
+            shift = ctx.rng.choice([0, 0, 1, -1, 2, -2, 3, -3]) * TWOPI     # any real longitude: the same point
+            lon_q = lon + shift
             try:
-                tile, x, y = toast.toast_pixel_for_point(d, lat, lon, coordsys=cs)
+                tile, x, y = toast.toast_pixel_for_point(d, lat, lon_q, coordsys=cs)
             except Exception as e:  # noqa
                 ctx.violation("C12:pixel_for_point:raises", "toast_pixel_for_point(%d, %.6f, %.6f, %s) raised %r" % (d, lat, lon, csname, e), {"cs": csname, "depth": d})
                 continue
@@ -148,8 +150,8 @@ def run(ctx):
             box["worstpix"] = max(box["worstpix"], worstpix)
             ctx.distinct((csname, "pix", (i, j, RR), d))
             if not (err <= 2.0):
-                ctx.violation("C12:pixel_for_point:position", "depth %d [%s] lat %.5f lon %.5f: returned pixel (x %.2f, y %.2f), the nearest pixel centre is (col %d, row %d)"
-                              % (d, csname, lat, lon, float(x), float(y), c, r), {"cs": csname, "depth": d, "lat": lat, "lon": lon})
+                ctx.violation("C12:pixel_for_point:position", "depth %d [%s] lat %.5f lon %.5f (%+d turns): returned pixel (x %.2f, y %.2f), the nearest pixel centre is (col %d, row %d)"
+                              % (d, csname, lat, lon, round(shift / TWOPI), float(x), float(y), c, r), {"cs": csname, "depth": d, "lat": lat, "lon": lon_q})
     gens = [work(n_, c_) for n_, c_ in toastlat.coordsystems()]
     while gens:
         for g in list(gens):
